@@ -294,7 +294,8 @@ func (m *Model) DeleteMode(id string, opts ...resource.WriteOption) error {
 
 func (m *Model) deleteMode(id string, opts ...resource.WriteOption) error {
 	active := m.activeMode.Get().(*traits.ElectricMode)
-	if _, exists := m.findMode(id); exists && id == active.Id {
+	if mode, exists := m.findMode(id); exists && mode.Id == active.Id {
+		// (compared through the stored mode: with an id interceptor configured, id may be another spelling of it)
 		// (a mode that does not exist is absent, whatever id the active mode carries: a fresh model's has none)
 		return ErrDeleteActiveMode
 	}
